@@ -425,6 +425,55 @@ theorem mixed_parity_vector_evaluates :
       [[5, 7, 11, 13], [0, 7, 0, 13]] (some [[0], [1]]) false 2 1 1 [2, 3]).2.2.map (·.val) = some [167, 372] := by
   decide +kernel
 
+/-! ## lazy power generation: the relinearisation state of the stored powers -/
+
+/-- the four modes of `genPowerCheck` for one `n` (`n = 0`: nothing to generate) -/
+@[irreducible] def genPowerCheck4 (n : Nat) : Bool :=
+  n == 0 || (genPowerCheck false n false && genPowerCheck false n true &&
+    genPowerCheck true n false && genPowerCheck true n true)
+
+set_option maxHeartbeats 40000000 in
+theorem lazy_genpower_degrees_all : (List.range 65).all genPowerCheck4 = true := by
+  decide +kernel
+
+/-- **lazy_genpower_degrees** (kernel evaluation of the machine, every `n ≤ 64`, both bases, lazy and not): from a
+    fresh basis `PowerBasis.GenPower(n, lazy)` is never refused — the machine refuses a product whose factors have
+    total degree above 2, so every stored power of degree 2 is relinearised BEFORE it is used as a factor (both
+    factors `a` and `b = n − a` of `SplitDegree`) — every stored power has degree at most 2, and `X^n` is stored.
+    The tie lines `genpower` reproduce trace, status and the (level, degree) of every stored power on the real code. -/
+theorem lazy_genpower_degrees (n : Nat) (h : n ≤ 64) (h1 : 1 ≤ n) (cheb lazy : Bool) :
+    genPowerCheck cheb n lazy = true := by
+  have h0 : genPowerCheck4 n = true :=
+    List.all_eq_true.mp lazy_genpower_degrees_all n (List.mem_range.mpr (by omega))
+  unfold genPowerCheck4 at h0
+  have hn : (n == 0) = false := by
+    cases hh : (n == 0) with
+    | false => rfl
+    | true => exact absurd (beq_iff_eq.mp hh) (by omega)
+  rw [hn, Bool.false_or] at h0
+  simp only [Bool.and_eq_true] at h0
+  obtain ⟨⟨⟨a, b⟩, c⟩, d⟩ := h0
+  cases cheb with
+  | false => cases lazy with
+    | false => exact a
+    | true => exact b
+  | true => cases lazy with
+    | false => exact c
+    | true => exact d
+
+set_option maxHeartbeats 40000000 in
+/-- … and for the powers the baby steps of degrees up to 255 need beyond 64 (spot values; every stored power is
+    covered by the `eval` tie lines of the lazy evaluations of degrees 64 … 255) -/
+theorem lazy_genpower_degrees_large :
+    ([96, 100, 127, 128, 129, 192, 200, 255, 256].all fun n => genPowerCheck false n true && genPowerCheck true n true) = true := by
+  decide +kernel
+
+/-- a lazy power left at degree 2 and multiplied again without relinearisation is refused (what the check of
+    `lazy_genpower_degrees` excludes): `mulOp` on operands of degrees 2 and 1 -/
+example : (match ((ExceptT.run (mulOp { t := 0, q := [], cheb := false, slots := 0 } "mulnew" false
+      { level := 3, scale := 0, deg := 2, val := [] } { level := 3, scale := 0, deg := 1, val := [] })).run ({} : St)).1 with
+    | .error _ => true | .ok _ => false) = true := by decide +kernel
+
 /-! ## user-set flags, the caller's basis, the scale-invariant mode (witnesses on the machine) -/
 
 /-- with `IsOdd = IsEven` (both set, the constructor's default, or both cleared) `Factorize` skips nothing -/
@@ -589,6 +638,8 @@ example : chebEval 2 4 5 [1, 2, 3] = 1 + 2 * 2 + 3 * (2 * 2 * 2 - 1) := by decid
 #print axioms unmapped_slots_zero
 #print axioms unmapped_slot_evaluates_to_zero
 #print axioms vector_parity_spec
+#print axioms lazy_genpower_degrees
+#print axioms lazy_genpower_degrees_large
 #print axioms vector_with_general_member
 #print axioms mixed_parity_vector_evaluates
 #print axioms sim_backpropagation_spec_bfv
